@@ -224,6 +224,7 @@ func runInBubble(t *testing.T, sc *Scenario, spec RunSpec, res *RunResult) {
 		if r := recover(); r != nil {
 			res.HarnessErr = fmt.Sprintf("harness panic: %v", r)
 		}
+		simrt.ProbeHook.Store(nil)
 		x.Net.CloseAll()
 		s.Teardown()
 		x.Net.Uninstall()
